@@ -39,6 +39,12 @@ checks.update({
  "C07": ("exploration", "exhaustive enumeration of all short token / raw code point strings in-process, plus a finite family of size-parameterised shapes each in a resource-limited child process",
          "Every string over a 34-token alphabet up to length 4 (5 thorough) and every raw code point string (surrogates, NUL, U+10FFFF) up to length 5 (6) x 7 flag sets must compile to Ok or Err under catch_unwind with a 10 s watchdog; 37 adversarial shapes x sizes up to 65536 (10^6 thorough) x {\"\",u,v} run in child processes (8 MiB / 2 MiB stacks): a stack-exhaustion abort, a panic or a timeout on a small input is a violation; runs cut by the harness's own memory / wall caps are reported as caps, not verdicts.", "4 C07"),
 })
+checks.update({
+ "C08": ("model_checking", "exhaustive enumeration of all token strings up to a length bound x three grammar modes, plus all single-token edits of printed patterns, against a reference parser for the ES2025 grammar",
+         "Every string over a 34-token alphabet up to length 4 (5 thorough) under legacy / u / v, and every single-token edit (delete, replace, insert) of ~20k seed patterns, must be accepted by with_flags exactly when the reference parser (ES2025 22.2.1 + Annex B.1.2 + early errors) accepts it - both directions. The reference parser agrees with V8 11.3 on all 4.1 million (token string <= 4, mode) pairs.", "4 C08"),
+ "C12": ("model_checking", "bounded-exhaustive enumeration of class expressions (operator nesting depth, operand menu) and of every spelling over the class syntax alphabet, against the ES2025 set semantics",
+         "Class expressions built from 17 operand kinds with union / && / -- and negation to nesting depth 1 (2 thorough) under v and iv, legacy brackets with Annex B forms under \"\", i, u, iu, and every string '[' + s (|s| <= 6, 7 thorough) over the class syntax alphabet that parses as one class: /^E$/ and /E/ are matched against every string of length <= 2 over a 17-character universe and compared with CompileToCharSet / CharacterSetMatcher / ClassStrings as transcribed from the specification.", "4 C12"),
+})
 not_applicable = {
 }
 PENDING = "check not built yet in this round (planned in DESIGN.md section 10); nothing is claimed for it until it exists"
